@@ -940,7 +940,8 @@ def fromMs (tokens : List String) (N0 : Q) (demeNames : Option (List String)) : 
     let keys := (nameMap.map (·.1)).foldr insertStr []
     let have_ := (mg.graph.demes.map (·.name)).foldr insertStr []
     if keys ≠ have_ then assertionErr "sorted(names.keys()) == sorted(deme names)"
-    pure { mg with graph := renameDemes mg.graph nameMap }
+    let g' ← renameDemesChecked mg.graph nameMap
+    pure { mg with graph := g' }
 
 /-! ## `to_ms` -/
 
